@@ -20,7 +20,7 @@ def _record_shard(exe, out, scen, seed, first, runs, opts, timeout):
 
 
 def _validate(path, module="TraceCircuit", cfg=None):
-    res = vlib.tlc(module, cfg=cfg, workers=1, env={"TRACE": path}, timeout=3000, xmx="3g")
+    res = vlib.tlc(module, cfg=cfg, workers=1, env={"TRACE": path}, timeout=3000, xmx="2g")
     reports = []
     rejected = None
     for rep in vlib.tlc_strings(res["out"]):
